@@ -37,6 +37,15 @@ func newScratchDir(prefix string) string {
 	return d
 }
 
+// covEnv passes the coverage directory of an instrumented build (tools/coverage.sh) on to the children, whose
+// environment is otherwise minimal
+func covEnv() []string {
+	if d := os.Getenv("GOCOVERDIR"); d != "" {
+		return []string{"GOCOVERDIR=" + d}
+	}
+	return nil
+}
+
 // runTaskctl runs the real binary; env entries are added to a minimal environment
 func runTaskctl(dir string, env []string, timeout time.Duration, args ...string) cliResult {
 	ctx, cancel := context.WithTimeout(context.Background(), timeout)
@@ -46,6 +55,7 @@ func runTaskctl(dir string, env []string, timeout time.Duration, args ...string)
 	home := filepath.Join(dir, ".verif-home")
 	os.MkdirAll(home, 0755)
 	base := []string{"PATH=" + os.Getenv("PATH"), "HOME=" + home, "TERM=dumb"}
+	base = append(base, covEnv()...)
 	// case-specific variables first: their position in the inherited environment is not special
 	cmd.Env = append(append([]string{}, env...), base...)
 	cmd.SysProcAttr = &syscall.SysProcAttr{Setpgid: true}
